@@ -42,7 +42,7 @@ Definition sres_eqb (a b : sres) : bool :=
 Definition content_eqb (a b : content) : bool :=
   match a, b with
   | CCa x, CCa y => src_eqb x y
-  | CTls x, CTls y => src_eqb x y
+  | CTls x f, CTls y g => src_eqb x y && N.eqb f g
   | _, _ => false
   end.
 Definition entry_eqb (a b : entry) : bool := String.eqb (fst a) (fst b) && content_eqb (snd a) (snd b).
